@@ -10,7 +10,8 @@ use serde_json::json;
 
 fn strategies(rng: &mut Rng, p: &ToyParams) -> Cheat {
     let row = rng.usize_below(1usize << p.log_trace);
-    match rng.below(16) {
+    match rng.below(19) {
+        16..=18 => Cheat::BadShape { kind: rng.pick(&toyprover::BAD_SHAPES_QUICK).to_string() },
         0 => Cheat::OodsEq { row },
         1 | 2 => Cheat::OodsLen { row },
         3 => Cheat::MerkleLie { row, table: 0 },
@@ -44,6 +45,7 @@ pub fn cheat_name(c: &Cheat) -> &'static str {
         Cheat::NvfSkew => "nvf-skew",
         Cheat::Splice => "splice",
         Cheat::BlowupModP { .. } => "blowup-modp",
+        Cheat::BadShape { .. } => "bad-shape",
     }
 }
 
@@ -58,7 +60,11 @@ pub fn c01(ctx: &mut Ctx) {
         let mut rng = Rng::derive(ctx.seed, scenario, k);
         let params = ToyParams::draw(&mut rng, ctx.is_quick());
         let cheat = strategies(&mut rng, &params);
-        let name = cheat_name(&cheat);
+        let name_owned = match &cheat {
+            Cheat::BadShape { kind } => format!("bad-shape:{kind}"),
+            c => cheat_name(c).to_string(),
+        };
+        let name = name_owned.as_str();
         // the accepted twin
         let twin = match toyprover::prove(&params, &Cheat::None) {
             Ok(a) => a,
